@@ -888,7 +888,41 @@ def table_fresh_cells(prog: Program) -> RuleResult:
         raise AnalysisError(f"TABLE-FRESH-CELLS: only {n} dimension constructors recognised in _generate_table")
     return res
 
+
+def entry_owns_tags(prog: Program) -> RuleResult:
+    res = RuleResult(
+        "ENTRY-OWNS-TAGS",
+        "an entry owns its tag set: every assignment to `self._infos` in Entry binds a freshly built set (`set(...)`, a "
+        "set display or comprehension), never an object received from outside - update() adds to the set in place, "
+        "so a shared set would leak tags of one entry into another",
+    )
+    mod = prog.module(DP)
+    entry = prog.cls(DP, "Entry")
+    n = 0
+    for meth in entry.body:
+        if not isinstance(meth, (ast.FunctionDef, ast.AsyncFunctionDef)):
+            continue
+        for node in walk_no_nested(meth):
+            if isinstance(node, ast.Assign) and any(_self_attr(t, "_infos") for t in node.targets):
+                n += 1
+                construct = f"{DP}:Entry.{meth.name}/tags-assignment#{n}"
+                val = node.value
+                alts = [val]
+                if isinstance(val, ast.IfExp):
+                    alts = [val.body, val.orelse]
+                stale = [
+                    a for a in alts
+                    if not (isinstance(a, (ast.Set, ast.SetComp)) or (isinstance(a, ast.Call) and dotted(a.func) in ("set", "frozenset")))
+                ]
+                if stale:
+                    res.fail(construct, f"`{short(node)}` can bind `{short(stale[0])}`, an object the entry does not own", mod, node)
+                else:
+                    res.ok(construct, short(node))
+    res.floor(3)
+    return res
+
 RULES = {
+    "ENTRY-OWNS-TAGS": entry_owns_tags,
     "TABLE-FRESH-CELLS": table_fresh_cells,
     "UPDATE-PAIRING": update_pairing,
     "RETENTION-GUARDS": retention_guards,
